@@ -1,17 +1,28 @@
 """Link (A) for C05 (engine own): the *ownership profile* of the container sources.
 
 For every function of Array.c / List.c / Table.c / Tree.c / Pointer.c that constructs, finalises or moves elements,
-the ordered list of ownership-relevant calls in its body (destruct, assign, byte moves, allocation, throw, and the
-container-internal helpers).  The Lean model Cello/Own.lean was written against exactly these sequences
-(`CelloProofs/Props/C05.lean: C05_source_profile`): removing a `destruct`, adding an `assign`, or moving the bounds
-check of a push behind the construction changes the generated definition and the theorem stops checking.
+the ordered list of ownership-relevant calls in its body (destruct, assign, byte moves, allocation, throw, the type
+checks `cast(<arg>)`, and the container-internal helpers).  The Lean model Cello/Own.lean was written against exactly
+these sequences (`CelloProofs/Props/C05.lean: C05_source_profile`): removing a `destruct`, adding an `assign`, or moving
+the bounds check of a push behind the construction changes the generated definition and the theorem stops checking.
+
+`typeChecks`: for every function that receives an element / key / value from the caller, WHERE its type check stands
+relative to the first thing the function does to memory: the arguments `cast` before the first effect, the first
+effect (an allocation, assign, destruct, byte move, container-internal helper, or an update of `nitems`), and the
+arguments cast only after it.  The model's type-refused calls (`Op.typed`) are inert exactly where the casts come
+first (Table_Set_Move, Tree_Set, Table_Rem, Tree_Rem: `C05_type_check_first_*`) and mirror what is left behind where
+the container makes room before the element's own check runs (Array_Push, …: `C05_type_check_late_array_list`).
+
+`unmodelledCallees`: calls from these functions to other functions of the same source file that are neither in the
+profile vocabulary nor pure accessors — a refactor that moves allocation / assignment into a new helper shows up here
+(`C05_no_unmodelled_helpers`) instead of silently dropping out of the profile.
 """
 import re
 from ctext import *
 from gen import HEADER, lean_str, lean_list
 
 # calls that matter for ownership; everything else (len, c_int, cast, hash, eq, print_to, ...) is ignored
-WORDS = ['destruct', 'assign', 'memcpy', 'memmove', 'memset', 'swap', 'free', 'realloc', 'calloc', 'malloc', 'throw', 'del',
+WORDS = ['cast', 'destruct', 'assign', 'memcpy', 'memmove', 'memset', 'swap', 'free', 'realloc', 'calloc', 'malloc', 'throw', 'del',
          'Array_Alloc', 'Array_Clear', 'Array_Push', 'Array_Pop_At', 'Array_Reserve_More', 'Array_Reserve_Less',
          'Array_Sort_Partition', 'Array_Sort_Part',
          'List_Alloc', 'List_Free', 'List_Push', 'List_Unlink', 'List_Link', 'List_At', 'List_Clear',
@@ -34,14 +45,60 @@ FUNCS = {
 
 CALL = re.compile(r'\b(' + '|'.join(sorted(WORDS, key=len, reverse=True)) + r')\s*\(')
 
+# pure accessors / link-and-colour helpers of the container sources: they construct, finalise and move no element
+ACCESSORS = {'Array_Get', 'Array_Item', 'Array_Size_Round', 'Array_Step', 'List_Next', 'List_Prev',
+             'Table_Ideal_Size', 'Table_Key', 'Table_Key_Hash', 'Table_Probe', 'Table_Size_Round', 'Table_Step',
+             'Table_Swapspace_Key', 'Table_Swapspace_Val', 'Table_Swapspace_Hash', 'Table_Val',
+             'Tree_Get_Color', 'Tree_Get_Parent', 'Tree_Is_Black', 'Tree_Is_Red', 'Tree_Key', 'Tree_Left', 'Tree_Maximum',
+             'Tree_Right', 'Tree_Set_Black', 'Tree_Set_Color', 'Tree_Set_Parent', 'Tree_Set_Red', 'Tree_Val',
+             'Box_Ref', 'Box_Deref'}
+LOCAL_CALL = re.compile(r'\b((?:Array|List|Table|Tree|Box)_\w+)\s*\(')
+
+# functions that receive an element / key / value (or constructor arguments) from the caller
+TYPECHECKED = {
+    'Array.c': ['Array_New', 'Array_Concat', 'Array_Rem', 'Array_Push', 'Array_Push_At', 'Array_Set'],
+    'List.c': ['List_New', 'List_Concat', 'List_Rem', 'List_Push', 'List_Push_At', 'List_Set'],
+    'Table.c': ['Table_New', 'Table_Set_Move', 'Table_Rem', 'Table_Set'],
+    'Tree.c': ['Tree_New', 'Tree_Set', 'Tree_Rem'],
+}
+# `x->nitems++`, `x->nitems += n`, `x->nitems = n`, `x->nitems--`: the container's element count changes
+NITEMS = re.compile(r'->\s*nitems\s*(\+\+|--|\+=|-=|=(?!=))')
+
+def cast_arg(body, at):
+    """first argument of the `cast(` call whose name starts at `at`, whitespace removed"""
+    i = body.index('(', at)
+    e = balanced(body, i)
+    parts = split_top(body[i + 1:e - 1])
+    if len(parts) != 2: raise ExtractError('cast( with ' + str(len(parts)) + ' arguments')
+    return re.sub(r'\s+', '', parts[0])
+
 # `if (self is obj) { return; }` at the head of a *_Assign (fix a3140e4): assign(x, x) must not reach the Clear
 SELF_GUARD = re.compile(r'\bif\s*\(\s*self\s+is\s+obj\s*\)\s*\{?\s*return\s*;')
 
 def profile_of(body, self_name):
-    calls = [(m.start(), m.group(1)) for m in CALL.finditer(body)]
+    calls = []
+    for m in CALL.finditer(body):
+        w = m.group(1)
+        if w == 'cast': w = 'cast(' + cast_arg(body, m.start()) + ')'
+        calls.append((m.start(), w))
     g = SELF_GUARD.search(body)
     if g: calls.append((g.start(), 'return_if_self_is_obj'))
     return [w for _, w in sorted(calls)]
+
+def type_check_of(body):
+    """(arguments cast before the first effect, first effect, arguments cast after it)"""
+    ev = []
+    for m in CALL.finditer(body):
+        w = m.group(1)
+        if w == 'throw': continue
+        ev.append((m.start(), ('cast', cast_arg(body, m.start())) if w == 'cast' else ('effect', w)))
+    for m in NITEMS.finditer(body): ev.append((m.start(), ('effect', 'nitems' + m.group(1))))
+    ev = [e for _, e in sorted(ev)]
+    k = next((i for i, e in enumerate(ev) if e[0] == 'effect'), len(ev))
+    upfront = [a for t, a in ev[:k]]
+    first = ev[k][1] if k < len(ev) else ''
+    late = [a for t, a in ev[k:] if t == 'cast']
+    return upfront, first, late
 
 def gen_own(repo):
     rows = []
@@ -63,6 +120,23 @@ def gen_own(repo):
             parts = split_top(text[im.end():e - 1])
             if parts and parts[0] in ('New', 'Assign', 'Push', 'Concat', 'Get', 'Resize', 'Sort'):
                 insts.append((tname, parts[0], parts[1:]))
+    checks, unknown = [], []
+    for fname, funcs in FUNCS.items():
+        src = read(f'{repo}/src/{fname}')
+        for f in funcs:
+            b = func_body(src, f)
+            if f in TYPECHECKED.get(fname, []): checks.append((f,) + type_check_of(b))
+            extra = []
+            for m in LOCAL_CALL.finditer(b):
+                n = m.group(1)
+                if n not in WORDS and n not in ACCESSORS and n not in extra: extra.append(n)
+            if extra: unknown.append((f, extra))
+    for fname, funcs in TYPECHECKED.items():
+        for f in funcs:
+            if f not in FUNCS[fname]: raise ExtractError(f'{f} is type-checked but not profiled')
+    cbody = ',\n  '.join(f'({lean_str(f)}, {lean_list([lean_str(a) for a in up])}, {lean_str(first)}, {lean_list([lean_str(a) for a in late])})'
+                         for f, up, first, late in checks)
+    ubody = ', '.join(f'({lean_str(f)}, {lean_list([lean_str(x) for x in xs])})' for f, xs in unknown)
     body = ',\n  '.join(f'({lean_str(f)}, {lean_list([lean_str(c) for c in calls])})' for f, calls in rows)
     ibody = ',\n  '.join(f'({lean_str(t)}, {lean_str(c)}, {lean_list([lean_str(x) for x in fs])})' for t, c, fs in insts)
     return HEADER + f"""namespace CelloGen.Own
@@ -71,6 +145,15 @@ def gen_own(repo):
     textual order (destruct / assign / byte moves / allocation / throw / container-internal helpers) -/
 def profile : List (String × List String) := [
   {body}]
+
+/-- for each function that receives an element / key / value (or constructor arguments) from the caller:
+    (function, arguments `cast` before the first effect, the first effect — allocation / assign / destruct / byte move /
+    container-internal helper / update of `nitems`; "" = none —, arguments `cast` only after it) -/
+def typeChecks : List (String × List String × String × List String) := [
+  {cbody}]
+
+/-- calls to functions of the same source file that are neither in the profile vocabulary nor pure accessors -/
+def unmodelledCallees : List (String × List String) := [{ubody}]
 
 /-- the New / Assign / Push / Concat / Get / Resize / Sort instances the container types register -/
 def instances : List (String × String × List String) := [
